@@ -406,8 +406,8 @@ impl Family for C08 {
 
     fn runs(t: Tier) -> u64 {
         match t {
-            Tier::Quick => 400_000,
-            Tier::Thorough => 30_000_000,
+            Tier::Quick => 3_000_000,
+            Tier::Thorough => 200_000_000,
         }
     }
 
